@@ -264,6 +264,36 @@ def parseMonetaryVar (cs : List Char) : Dec (String × Int) :=
       else if i < 0 then .error "negative amount"
       else .ok (String.ofList a, i)
 
+/-- `big.Rat.SetString("n/d")` reads numerator and denominator with base 0: a part
+    written with a leading `0` and more digits is OCTAL (`010/100` is 8/64), and
+    fails when it contains an 8 or a 9.  (`Ledger.Machine.parsePortionSpecific`
+    reads both parts in base 10; the two agree when no part has a leading zero.) -/
+def base0Nat (ds : List Char) : Option Nat :=
+  match ds with
+  | '0' :: c :: rest =>
+    if (c :: rest).all (fun d => d.toNat ≤ 55) then
+      some ((c :: rest).foldl (fun acc d => acc * 8 + (d.toNat - 48)) 0)
+    else none
+  | _ => some (Ledger.Machine.digitsVal ds)
+
+/-- `machine.ParsePortionSpecific` as the API reaches it. -/
+def parsePortionVar (s : String) : Dec Rat :=
+  let specific (r : Except String Ledger.Machine.Portion) : Dec Rat :=
+    match r with
+    | .ok (.specific q) => .ok q
+    | _ => .error "portion"
+  match Ledger.Machine.matchPercent s.toList with
+  | some _ => specific (Ledger.Machine.parsePortionSpecific s)
+  | none =>
+    match Ledger.Machine.matchFraction s.toList with
+    | some (n, d) =>
+      (match base0Nat n, base0Nat d with
+       | some a, some b =>
+         if b = 0 then .error "portion"
+         else specific (Ledger.Machine.newPortionSpecific ((a : Int) / (b : Int)))
+       | _, _ => .error "portion")
+    | none => .error "portion"
+
 /-- `machine.NewValueFromString`. -/
 def parseTyped (t : VarType) (s : String) : Dec TVal :=
   match t with
@@ -272,11 +302,7 @@ def parseTyped (t : VarType) (s : String) : Dec TVal :=
   | .number => (parseNumberVar s.toList).map TVal.number
   | .string => .ok (.string s)
   | .monetary => (parseMonetaryVar s.toList).map fun (a, i) => TVal.monetary a i
-  | .portion =>
-    match Ledger.Machine.parsePortionSpecific s with
-    | .ok (.specific r) => .ok (.portion r)
-    | .ok .remaining => .error "portion"
-    | .error _ => .error "portion"
+  | .portion => (parsePortionVar s).map TVal.portion
 
 /-- `program.ParseVariablesJSON`: every declared variable must be present and
     well-typed, nothing else may be present. -/
